@@ -159,11 +159,12 @@ Print Assumptions import_sound_unitary.
 
 (* import_total: a program that is well-formed per the standard (Spec/Qasm.v wf over built-ins + qelib1.inc: names declared
    before use and once, arities, indices in range, equal register sizes in a broadcast, pairwise distinct qubits after
-   broadcast, plain closed parameter expressions, non-empty registers, every gate body applies at least one gate) is NEVER
-   refused by the importer model - provided no division by zero occurs while evaluating parameters (vdiv total).
-   The three open findings are outside this statement: empty gate bodies are excluded by wf (has_call); an empty `( )`
-   parameter list and `if(..) measure` have no counterpart in the syntax tree (they are refused by the tokenizer / final
-   pass of the real code, which the model does not contain). *)
+   broadcast, plain closed parameter expressions, non-empty registers) is NEVER refused by the importer model - provided
+   no division by zero occurs while evaluating parameters (vdiv total).  Gate definitions whose body applies no gate
+   (`gate g a { }`, barriers only) are included since fix C04-i-empty-gate-body (identity).  An empty `( )` parameter
+   list is a matter of the tokenizer only (same syntax tree; repaired by C04-j-empty-parameter-parens and exercised by the
+   correspondence check).  `if(..) measure` has no counterpart in the syntax tree: QubitCircuit cannot express a
+   conditioned measurement, so it stays refused (open known finding if-measure-refused). *)
 Theorem import_total : forall (A : VAlg), (forall a b : A, vdiv A a b <> None) ->
   forall p, wf lib_sigs p = true -> import_prog A p <> None.
 Proof. exact import_total_thm. Qed.
@@ -191,11 +192,12 @@ Example import_sound_instance :
 Proof. do 4 eexists. split; [vm_compute; reflexivity|]. split; [vm_compute; reflexivity|]. repeat split. Qed.
 Example import_total_instance :
   let p := mkProg [("q", 2); ("r", 2)] [("c", 2)]
-             [GDef "g" (mkGdef ["t"] ["a"; "b"] [BCall "rx" [EDiv (EId "t") (ENum 2)] ["a"]; BBarrier ["a"]; BCall "cz" [] ["b"; "a"]])]
-             [OApp "cx" [] [AReg "q"; AReg "r"]; OMeasure (AIdx "q" 0) (AIdx "c" 0); OIf "c" 1 "g" [EPi] [AIdx "q" 1; AIdx "r" 0];
+             [GDef "g" (mkGdef ["t"] ["a"; "b"] [BCall "rx" [EDiv (EId "t") (ENum 2)] ["a"]; BBarrier ["a"]; BCall "cz" [] ["b"; "a"]]);
+              GDef "nop" (mkGdef [] ["a"] [BBarrier ["a"]]); GDef "usenop" (mkGdef [] ["a"; "b"] [BCall "nop" [] ["b"]])]
+             [OApp "cx" [] [AReg "q"; AReg "r"]; OApp "nop" [] [AReg "q"]; OApp "usenop" [] [AIdx "q" 0; AIdx "r" 1]; OMeasure (AIdx "q" 0) (AIdx "c" 0); OIf "c" 1 "g" [EPi] [AIdx "q" 1; AIdx "r" 0];
               OBarrier [AReg "q"; AIdx "r" 1]; OMeasure (AReg "q") (AReg "c")] in
-  wf lib_sigs p = true /\ (forall a b : TermAlg, vdiv TermAlg a b <> None).
-Proof. split; [vm_compute; reflexivity|intros a b; discriminate]. Qed.
+  wf lib_sigs p = true /\ (forall a b : TermAlg, vdiv TermAlg a b <> None) /\ import_prog TermAlg p <> None.
+Proof. split; [vm_compute; reflexivity|]. split; [intros a b; discriminate|vm_compute; discriminate]. Qed.
 Example regs_ok_instance : regs_gate true [("q", (0, 2)); ("r", (2, 2))] [AReg "q"; AIdx "r" 1] = Some [[0; 3]; [1; 3]].
 Proof. vm_compute. reflexivity. Qed.
 Example shortcut_ok_ccx : exists c1 c2, imp_sym "ccx" = Some c1 /\ std_with_phase "ccx" = Some c2 /\ length c1 = 1 /\ length c2 = 16
